@@ -230,21 +230,34 @@ class Extractor:
                         self.add_string_usage(a, "usefixtures")
             if isinstance(d, ast.Call) and is_mark(d.func, "parametrize") and not isinstance(node, ast.ClassDef):
                 ind = kw(d, "indirect")
-                if ind is None or not d.args:
+                first = d.args[0] if d.args else kw(d, "argnames")
+                if ind is None or first is None:
                     continue
-                first = d.args[0]
-                if not (isinstance(first, ast.Constant) and isinstance(first.value, str)):
-                    continue
-                raw = first.value
-                names = [x.strip() for x in raw.split(",")]
-                if isinstance(ind, ast.Constant) and ind.value is True:
+                # argnames: one comma-separated string, or a tuple / list of strings
+                # (pytest: [x.strip() for x in argnames.split(",") if x.strip()])
+                entries = []   # (name, node, offset-inside-string or None)
+                if isinstance(first, ast.Constant) and isinstance(first.value, str):
                     off = 0
-                    for part in raw.split(","):
+                    for part in first.value.split(","):
                         nm = part.strip()
                         lead = len(part) - len(part.lstrip())
-                        self.add_string_usage(first, "indirect", name=nm, whole=off + lead)
+                        if nm:
+                            entries.append((nm, first, off + lead))
                         off += len(part) + 1
-                elif isinstance(ind, ast.List):
+                elif isinstance(first, (ast.Tuple, ast.List)):
+                    for el in first.elts:
+                        if isinstance(el, ast.Constant) and isinstance(el.value, str) and el.value.strip():
+                            entries.append((el.value.strip(), el, None))
+                else:
+                    continue
+                names = [e[0] for e in entries]
+                if isinstance(ind, ast.Constant) and ind.value is True:
+                    for nm, node_, off in entries:
+                        if off is None:
+                            self.add_string_usage(node_, "indirect")
+                        else:
+                            self.add_string_usage(node_, "indirect", name=nm, whole=off)
+                elif isinstance(ind, (ast.List, ast.Tuple)):
                     for el in ind.elts:
                         if isinstance(el, ast.Constant) and isinstance(el.value, str) and el.value in names:
                             self.add_string_usage(el, "indirect")
